@@ -78,6 +78,9 @@ impl Updater<'_> {
     let mut uncommitted = 0;
     let mut utxo_cache = HashMap::new();
     while let Ok(block) = rx.recv() {
+      #[cfg(feature = "verif")]
+      crate::verif::point("block.received", self.height.into())?;
+
       self.index_block(
         &mut output_sender,
         &mut txout_receiver,
@@ -107,6 +110,8 @@ impl Updater<'_> {
         self.commit(wtx, utxo_cache)?;
         utxo_cache = HashMap::new();
         uncommitted = 0;
+        #[cfg(feature = "verif")]
+        crate::verif::point("commit.done", self.height.into())?;
         wtx = self.index.begin_write()?;
         let height = wtx
           .open_table(HEIGHT_TO_BLOCK_HEADER)?
@@ -166,7 +171,15 @@ impl Updater<'_> {
     let client = index.settings.bitcoin_rpc_client(None)?;
 
     thread::spawn(move || {
+      #[cfg(feature = "verif")]
+      let _guard = crate::verif::thread_guard("F");
+
       loop {
+        #[cfg(feature = "verif")]
+        if crate::verif::fetch_gate(height) {
+          break;
+        }
+
         if let Some(height_limit) = height_limit
           && height >= height_limit
         {
@@ -231,6 +244,11 @@ impl Updater<'_> {
             return Err(err);
           }
 
+          #[cfg(feature = "verif")]
+          if crate::verif::sleep(Duration::from_secs(seconds)) {
+            continue;
+          }
+
           thread::sleep(Duration::from_secs(seconds));
         }
         Ok(result) => return Ok(result),
@@ -259,12 +277,18 @@ impl Updater<'_> {
     let runtime = index.settings.runtime()?;
 
     thread::spawn(move || {
+      #[cfg(feature = "verif")]
+      let _guard = crate::verif::thread_guard("T");
+
       runtime.block_on(async move {
         loop {
           let Some(outpoint) = outpoint_receiver.recv().await else {
             log::debug!("Outpoint channel closed");
             return;
           };
+
+          #[cfg(feature = "verif")]
+          crate::verif::batch_wait();
 
           // There's no try_iter on tokio::sync::mpsc::Receiver like std::sync::mpsc::Receiver.
           // So we just loop until BATCH_SIZE doing try_recv until it returns None.
@@ -275,6 +299,9 @@ impl Updater<'_> {
             };
             outpoints.push(outpoint);
           }
+
+          #[cfg(feature = "verif")]
+          crate::verif::batch_drained(outpoints.len());
 
           // Break outputs into chunks for parallel requests
           let chunk_size = (outpoints.len() / parallel_requests) + 1;
@@ -302,6 +329,9 @@ impl Updater<'_> {
               return;
             };
           }
+
+          #[cfg(feature = "verif")]
+          crate::verif::batch_delivered();
         }
       })
     });
@@ -473,8 +503,14 @@ impl Updater<'_> {
           }
           // Send this outpoint to background thread to be fetched
           output_sender.blocking_send(prev_output)?;
+
+          #[cfg(feature = "verif")]
+          crate::verif::point("outpoint.sent", 0)?;
         }
       }
+
+      #[cfg(feature = "verif")]
+      crate::verif::point("outpoints.done", 0)?;
     }
 
     let mut lost_sats = statistic_to_count
@@ -561,8 +597,12 @@ impl Updater<'_> {
 
             let entry = if let Some(entry) = utxo_cache.remove(&OutPoint::load(outpoint)) {
               self.outputs_cached += 1;
+              #[cfg(feature = "verif")]
+              crate::verif::probe("input.cache");
               entry
             } else if let Some(entry) = outpoint_to_utxo_entry.remove(&outpoint)? {
+              #[cfg(feature = "verif")]
+              crate::verif::probe("input.table");
               if self.index.index_addresses {
                 let script_pubkey = entry.value().parse(self.index).script_pubkey();
                 if !script_pubkey_to_outpoint.remove(script_pubkey, outpoint)? {
@@ -573,6 +613,8 @@ impl Updater<'_> {
               entry.value().to_buf()
             } else {
               assert!(!self.index.have_full_utxo_index());
+              #[cfg(feature = "verif")]
+              crate::verif::probe("input.fetched");
               let txout = txout_receiver.blocking_recv().map_err(|err| {
                 anyhow!(
                   "failed to get transaction for {}: {err}",
@@ -668,6 +710,8 @@ impl Updater<'_> {
     }
 
     if !lost_sat_ranges.is_empty() {
+      #[cfg(feature = "verif")]
+      crate::verif::probe("sats.lost");
       // Note that the lost-sats outpoint is special, because (unlike real
       // outputs) it gets written to more than once.  commit() will merge
       // our new entry with any existing one.
@@ -795,6 +839,8 @@ impl Updater<'_> {
         let count = range.1 - range.0;
 
         let assigned = if count > remaining {
+          #[cfg(feature = "verif")]
+          crate::verif::probe("sats.split");
           self.sat_ranges_since_flush += 1;
           let middle = range.0 + remaining;
           pending_input_sat_range = Some((middle, range.1));
@@ -846,6 +892,8 @@ impl Updater<'_> {
         if Index::is_special_outpoint(outpoint)
           && let Some(old_entry) = outpoint_to_utxo_entry.get(&outpoint.store())?
         {
+          #[cfg(feature = "verif")]
+          crate::verif::probe("commit.special_merge");
           utxo_entry = UtxoEntryBuf::merged(old_entry.value(), &utxo_entry, self.index);
         }
 
@@ -871,13 +919,21 @@ impl Updater<'_> {
     Index::increment_statistic(&wtx, Statistic::SatRanges, self.sat_ranges_since_flush)?;
     self.sat_ranges_since_flush = 0;
     Index::increment_statistic(&wtx, Statistic::Commits, 1)?;
+    #[cfg(feature = "verif")]
+    crate::verif::point("commit.before", self.height.into())?;
     wtx.commit()?;
+    #[cfg(feature = "verif")]
+    crate::verif::point("commit.after_first", self.height.into())?;
 
     // Commit twice since due to a bug redb will only reuse pages freed in the
     // transaction before last.
     self.index.begin_write()?.commit()?;
+    #[cfg(feature = "verif")]
+    crate::verif::point("commit.after_second", self.height.into())?;
 
     Reorg::update_savepoints(self.index, self.height)?;
+    #[cfg(feature = "verif")]
+    crate::verif::point("commit.after_savepoints", self.height.into())?;
 
     Ok(())
   }
